@@ -26,6 +26,7 @@ struct C02Script {
     slow_permille: u64,
     noreply_permille: u64,
     big_permille: u64,
+    event_permille: u64,
     /// Once per run (1 run in 8): while requests are outstanding the node pushes a frame
     /// with an UNKNOWN opcode whose body is itself a well-formed RESULT frame addressed
     /// to the stream of an outstanding request, carrying another request's content. A
@@ -71,6 +72,22 @@ impl Script for C02Script {
             w.fault(Fault::Garbage);
             w.probe("unknown_opcode_frame_with_embedded_response");
             w.srv_send_now(rq.conn, f, None);
+        }
+        // Some nodes push EVENT frames (stream -1) on a connection that never registered for
+        // them; a client simply has no use for those. Here one travels in the same segment
+        // as (right in front of) the answer to this request, usually with other answers
+        // right behind it.
+        if self.event_permille > 0 && m & F_HOLDALL == 0 && tape::chance("c02:event", self.event_permille, 1000) {
+            let ip = w.cluster.nodes[rq.node].ip;
+            let ev = crate::wire::encode_response(
+                -1,
+                crate::wire::OP_EVENT,
+                &crate::wire::body_event_status("UP", ip, 9042),
+                &crate::wire::Envelope::default(),
+                None,
+            );
+            w.conns[rq.conn].prepend_next_response = Some(ev);
+            w.probe("event_frame_in_front_of_an_answer");
         }
         if m & F_HOLDALL != 0 {
             self.parked.push((rq.conn, rq.stream, m));
@@ -204,6 +221,7 @@ async fn main(plan: Plan, slow_permille: u64) -> Outcome {
             slow_permille,
             noreply_permille: 0,
             big_permille: [0, 0, 50, 300][tape::choose("c02:big_rate", 4) as usize],
+            event_permille: [0, 0, 0, 60][tape::choose("c02:event_rate", 4) as usize],
             trojan_armed: tape::chance("c02:trojan", 1, 8),
             held: 0,
             parked: Vec::new(),
